@@ -1,5 +1,5 @@
 """Seeded variants for C05 (cache-key soundness).  The standing findings of the unedited tree
-(none since the repair of _canonicalize_dynamic) would be part of the baseline; three variants undo that repair."""
+(RX/RY/RZ/Rot/U3.theta reduced mod 2*pi in _canonicalize_dynamic, listed in known_findings.json) are part of the baseline."""
 
 from ..variants import fire, silent
 
@@ -13,46 +13,38 @@ SYM = "pennylane/ops/op_math/symbolicop.py"
 EXP = "pennylane/ops/op_math/exp.py"
 
 # ---- R-C05-period ----------------------------------------------------------------------------
-_TWO_PI = '    if op_name is not None and op_name in ("PhaseShift", "U1", "U2"):\n        mod_val = 2 * np.pi\n'
-_FOUR_PI_HEAD = '    elif op_name is not None and op_name in (\n        "RX",\n'
-_FOUR_PI_TUPLE = ('    elif op_name is not None and op_name in (\n        "RX",\n        "RY",\n        "RZ",\n        "Rot",\n        "U3",\n'
-                  '        "CRX",\n        "CRY",\n        "CRZ",\n        "CRot",\n    ):\n')
+# (RX/RY/RZ/Rot/U3.theta reduced mod 2*pi are known findings of the baseline: fire variants below must add NEW keys)
+BASEPY = "pennylane/core/operator/base.py"
+_EIGHT = '("RX", "RY", "RZ", "PhaseShift", "Rot", "U1", "U2", "U3")'
+_TWO_PI = "    if op_name is not None and op_name in " + _EIGHT + ":\n        mod_val = 2 * np.pi\n"
+_FOUR_PI_HEAD = '    elif op_name is not None and op_name in ("CRX", "CRY", "CRZ", "CRot"):\n'
+_COMMENT = ("        # Rot(θ) ∈ SU(2) double-covers SO(3) via center {-I, I}, so θ ↦ θ+2π is global phase -I;\n"
+            "        # in CRot, -I becomes a relative phase on |1⟩, breaking 2π periodicity to 4π.\n")
 _FOUR_PI_MOD = "        mod_val = 4 * np.pi\n    else:\n        mod_val = None"
-# undo the repair of the standing finding, three ways
-fire(P, "canonicalize-rx-moved-back-to-2pi-list",
-     [(OP2, _TWO_PI, _TWO_PI.replace('("PhaseShift", "U1", "U2")', '("RX", "PhaseShift", "U1", "U2")')),
-      (OP2, _FOUR_PI_HEAD, '    elif op_name is not None and op_name in (\n')],
-     "R-C05-period", "RX.phi")
-fire(P, "canonicalize-u3-moved-to-2pi-list",
-     [(OP2, _TWO_PI, _TWO_PI.replace('("PhaseShift", "U1", "U2")', '("PhaseShift", "U1", "U2", "U3")')),
-      (OP2, '        "Rot",\n        "U3",\n        "CRX",\n', '        "Rot",\n        "CRX",\n')],
-     "R-C05-period", "U3.theta")
-fire(P, "canonicalize-half-angle-list-mod-2pi",
-     (OP2, _FOUR_PI_MOD, _FOUR_PI_MOD.replace("4 * np.pi", "2 * np.pi")),
-     "R-C05-period", "RX.phi")
+_IF_CHAIN = _TWO_PI + _FOUR_PI_HEAD + _COMMENT + _FOUR_PI_MOD
+_DEF = "def _canonicalize_dynamic(d, op_name=None) -> Hashable:\n"
+_EIGHT_NAMES = ("RX", "RY", "RZ", "PhaseShift", "Rot", "U1", "U2", "U3")
+
 fire(P, "canonicalize-crx-list-mod-2pi",
      (OP2, _FOUR_PI_MOD, _FOUR_PI_MOD.replace("4 * np.pi", "2 * np.pi")),
      "R-C05-period", "CRX.phi")
 fire(P, "canonicalize-crot-moved-into-2pi-list",
-     [(OP2, _TWO_PI, _TWO_PI.replace('("PhaseShift", "U1", "U2")', '("PhaseShift", "U1", "U2", "CRot")')),
-      (OP2, '        "CRZ",\n        "CRot",\n    ):\n', '        "CRZ",\n    ):\n')],
+     [(OP2, _TWO_PI, _TWO_PI.replace('"U3")', '"U3", "CRot")')),
+      (OP2, _FOUR_PI_HEAD, _FOUR_PI_HEAD.replace(', "CRot")', ")"))],
      "R-C05-period", "CRot.theta")
 fire(P, "canonicalize-isingxx-added-mod-2pi",
-     [(OP2, _TWO_PI, _TWO_PI.replace('("PhaseShift", "U1", "U2")', '("PhaseShift", "U1", "U2", "IsingXX")'))],
+     [(OP2, _TWO_PI, _TWO_PI.replace('"U3")', '"U3", "IsingXX")'))],
      "R-C05-period", "IsingXX.phi")
 fire(P, "canonicalize-phaseshift-mod-pi",
      [(OP2, _FOUR_PI_HEAD,
             '    elif op_name is not None and op_name in ("ControlledPhaseShift",):\n        mod_val = np.pi\n' + _FOUR_PI_HEAD)],
      "R-C05-period", "ControlledPhaseShift.phi")
+fire(P, "canonicalize-first-list-mod-pi",
+     [(OP2, _TWO_PI, _TWO_PI.replace("mod_val = 2 * np.pi", "mod_val = np.pi"))],
+     "R-C05-period", "PhaseShift.phi")
+
+
 # the same canonicalisation refactored into a module-level table + lookup (no if-chain at all)
-_COMMENT = ("        # Rot(θ) ∈ SU(2) double-covers SO(3) via center {-I, I}, so θ ↦ θ+2π is global phase -I;\n"
-            "        # in CRot, -I becomes a relative phase on |1⟩, breaking 2π periodicity to 4π. The same\n"
-            "        # happens when the hash of an uncontrolled rotation is reused inside a wrapper such as\n"
-            "        # ``ctrl`` (and the raw state differs by the sign), so the half-angle gates use 4π as well.\n")
-_IF_CHAIN = _TWO_PI + _FOUR_PI_TUPLE + _COMMENT + _FOUR_PI_MOD
-_DEF = "def _canonicalize_dynamic(d, op_name=None) -> Hashable:\n"
-
-
 def _table_refactor(two_pi_names, four_pi_names, lookup="    mod_val = _ROTATION_PERIODS.get(op_name)"):
     table = ("_ROTATION_PERIODS = dict.fromkeys(\n    (" + ", ".join(repr(n) for n in two_pi_names) + "),\n    2 * np.pi,\n) | dict.fromkeys(("
              + ", ".join(repr(n) for n in four_pi_names) + ",), 4 * np.pi)\n\n\n")
@@ -60,17 +52,17 @@ def _table_refactor(two_pi_names, four_pi_names, lookup="    mod_val = _ROTATION
 
 
 fire(P, "canonicalize-table-refactor-crx-under-2pi",
-     _table_refactor(("PhaseShift", "U1", "U2", "CRX", "CRY", "CRZ", "CRot"), ("RX", "RY", "RZ", "Rot", "U3")),
+     _table_refactor(_EIGHT_NAMES + ("CRX", "CRY", "CRZ"), ("CRot",)),
      "R-C05-period", "CRX.phi")
-fire(P, "canonicalize-table-refactor-subscript-lookup-rz-under-2pi",
-     _table_refactor(("PhaseShift", "U1", "U2", "RZ"), ("RX", "RY", "Rot", "U3", "CRX", "CRY", "CRZ", "CRot"),
+fire(P, "canonicalize-table-refactor-subscript-lookup-crz-under-2pi",
+     _table_refactor(_EIGHT_NAMES + ("CRZ",), ("CRX", "CRY", "CRot"),
                      lookup="    mod_val = _ROTATION_PERIODS[op_name] if op_name in _ROTATION_PERIODS else None"),
-     "R-C05-period", "RZ.phi")
-fire(P, "canonicalize-equality-chain-ry-under-2pi",
-     [(OP2, _IF_CHAIN, '    if op_name == "RY" or op_name in {"PhaseShift": 0, "U1": 0, "U2": 0}:\n        mod_val = np.pi * 2\n'
-                       '    elif not (op_name is None or op_name not in ["RX", "RZ", "Rot", "U3", "CRX", "CRY", "CRZ", "CRot"]):\n'
+     "R-C05-period", "CRZ.phi")
+fire(P, "canonicalize-equality-chain-cry-under-2pi",
+     [(OP2, _IF_CHAIN, '    if op_name == "CRY" or op_name in dict.fromkeys(' + _EIGHT + ', 0):\n        mod_val = np.pi * 2\n'
+                       '    elif not (op_name is None or op_name not in ["CRX", "CRZ", "CRot"]):\n'
                        "        mod_val = 4 * np.pi\n    else:\n        mod_val = None")],
-     "R-C05-period", "RY.phi")
+     "R-C05-period", "CRY.phi")
 fire(P, "controlled-hash-base-mod-2pi",
      (CTRL, "math.round(math.real(d) % (4 * np.pi), 10)", "math.round(math.real(d) % (2 * np.pi), 10)"),
      "R-C05-period", "Controlled.__hash__")
@@ -120,9 +112,8 @@ fire(P, "exp-hash-drops-coeff",
 # ---- behaviour-preserving controls -------------------------------------------------------------
 silent(P, "canonicalize-modulus-respelled",
        [(OP2, _FOUR_PI_MOD, _FOUR_PI_MOD.replace("4 * np.pi", "np.pi * 4.0"))])
-silent(P, "canonicalize-names-as-set-on-one-line",
-       [(OP2, _FOUR_PI_TUPLE,
-              '    elif op_name is not None and op_name in {"CRot", "CRZ", "CRY", "CRX", "U3", "Rot", "RZ", "RY", "RX"}:\n')])
+silent(P, "canonicalize-crx-names-as-set",
+       [(OP2, _FOUR_PI_HEAD, '    elif op_name is not None and op_name in {"CRot", "CRZ", "CRY", "CRX"}:\n')])
 silent(P, "controlled-hash-modulus-8pi-over-2",
        [(CTRL, "math.round(math.real(d) % (4 * np.pi), 10)", "math.round(math.real(d) % (8 * np.pi / 2), 10)")])
 silent(P, "qscript-hash-reordered-and-direct-attribute",
@@ -133,13 +124,24 @@ silent(P, "vnentropy-hash-fields-reordered",
              "        base = self.log_base\n        return hash((base, tuple(self.wires.tolist()), self.__class__.__name__))")])
 silent(P, "exp-hash-reads-scalar-directly",
        [(EXP, "hash((str(self.name), hash(self.base), str(self.coeff)))", "hash((str(self.name), str(self.scalar), hash(self.base)))")])
-silent(P, "canonicalize-table-refactor-correct-moduli",
-       _table_refactor(("PhaseShift", "U1", "U2"), ("RX", "RY", "RZ", "Rot", "U3", "CRX", "CRY", "CRZ", "CRot")))
+silent(P, "canonicalize-table-refactor-same-moduli",
+       _table_refactor(_EIGHT_NAMES, ("CRX", "CRY", "CRZ", "CRot")))
 silent(P, "canonicalize-table-refactor-dict-display-and-subscript",
-       [(OP2, _DEF, '_TWO = {"PhaseShift": 2 * np.pi, "U1": 2 * np.pi, "U2": np.pi * 2}\n'
-                    '_ROTATION_PERIODS = {**_TWO, **dict.fromkeys(["RX", "RY", "RZ", "Rot", "U3", "CRX", "CRY", "CRZ", "CRot"], 8 * np.pi / 2)}\n\n\n' + _DEF),
+       [(OP2, _DEF, '_TWO = {"PhaseShift": 2 * np.pi, "U1": 2 * np.pi, "U2": np.pi * 2, **dict.fromkeys(("RX", "RY", "RZ", "Rot", "U3"), 2 * np.pi)}\n'
+                    '_ROTATION_PERIODS = {**_TWO, **dict.fromkeys(["CRX", "CRY", "CRZ", "CRot"], 8 * np.pi / 2)}\n\n\n' + _DEF),
         (OP2, _IF_CHAIN, "    mod_val = _ROTATION_PERIODS[op_name] if op_name in _ROTATION_PERIODS else None")])
-silent(P, "canonicalize-equality-chain-correct-moduli",
-       [(OP2, _IF_CHAIN, '    if op_name in {"PhaseShift": 0, "U1": 0, "U2": 0}:\n        mod_val = np.pi * 2\n'
-                         '    elif not (op_name is None or op_name not in ["RX", "RY", "RZ", "Rot", "U3", "CRX", "CRY", "CRZ", "CRot"]):\n'
+silent(P, "canonicalize-equality-chain-same-moduli",
+       [(OP2, _IF_CHAIN, "    if op_name in dict.fromkeys(" + _EIGHT + ", 0):\n        mod_val = np.pi * 2\n"
+                         '    elif not (op_name is None or op_name not in ["CRX", "CRY", "CRZ", "CRot"]):\n'
                          "        mod_val = 4 * np.pi\n    else:\n        mod_val = None")])
+
+# ---- R-C05-strhash (rule in props/c05_extra.py) ---------------------------------------------------
+fire(P, "canonicalize-dynamic-plain-str-of-data",
+     (OP2, "    return _stringify_data(_mod_and_round(d, mod_val))", "    return str(_mod_and_round(d, mod_val))"),
+     "R-C05-strhash", "_canonicalize_dynamic")
+fire(P, "process-data-plain-str-of-data",
+     (BASEPY, "_stringify_data(_mod_and_round(d, mod_val)) for d in op.data", "str(_mod_and_round(d, mod_val)) for d in op.data"),
+     "R-C05-strhash", "_process_data")
+silent(P, "stringify-data-local-renamed",
+       [(BASEPY, "    arr = np.ascontiguousarray(qp.math.to_numpy(x))\n    return f\"{arr.shape}{arr.dtype}{hashlib.sha256(arr.tobytes()).hexdigest()}\"",
+                 "    dense = np.ascontiguousarray(qp.math.to_numpy(x))\n    return f\"{dense.shape}{dense.dtype}{hashlib.sha256(dense.tobytes()).hexdigest()}\"")])
